@@ -6,6 +6,7 @@ REPO = os.environ.get("VERIF_REPO", "/repo")
 BUILD = os.path.join(ROOT, "build")
 COQ = os.path.join(ROOT, "coq")
 GOENV = dict(os.environ, GOFLAGS="-mod=mod", GOPROXY="off", GOSUMDB="off", GOTOOLCHAIN="local",
+             VERIF_GOLDEN_DIR=os.path.join(ROOT, "corpus", "golden"),
              CGO_ENABLED=os.environ.get("CGO_ENABLED", "1"))
 
 sys.path.insert(0, os.path.join(ROOT, "bin"))
